@@ -47,9 +47,18 @@ def build_rule(arch, rule, objs_as_list=True):
 
 
 def run_episode(spec, uid="E"):
+    events = []
+    for _ in iter_episode(spec, uid, None, events):
+        pass
+    return events
+
+
+def iter_episode(spec, uid="E", shared=None, events=None):
     default_kind = spec.get("render", "ident")
     worlds = {0: World(spec["world"]["modules"], spec["world"]["imports"])}
-    reals, events = {}, []
+    reals = shared if shared is not None else {}
+    events = events if events is not None else []
+    logged = set()
 
     def key(a):
         return (a[0], a[1]) if isinstance(a, (list, tuple)) else (a, default_kind)
@@ -63,19 +72,22 @@ def run_episode(spec, uid="E"):
         if k not in reals:
             render, back = _renderer(k[1])
             reals[k] = (build_real(worlds[k[0]], render), render, back)
-            events.append({"k": "arch", "a": aid(a), "first": not events, **observe(reals[k][0], back)})
+        if k not in logged:
+            logged.add(k)
+            events.append({"k": "arch", "a": aid(a), "first": not events, **observe(reals[k][0], reals[k][2])})
         return reals[k]
 
     referenced = {(key(a), rid) for it in spec["items"] if it["op"] == "law" for a, rid in zip(it["as"], it["rids"])}
     # One LayeredArchitecture object per distinct definition and rendering is shared by all rules of the episode
     # (what users do: define the layers once, write many rules against them) unless the spec says "share": false.
     shared = {}
+    lobjs = {}
     import json as _json
     for it in spec["items"]:
         op = it["op"]
         if op == "leval":
             ev, render, back = real(it["a"])
-            w = worlds[key(it["a"])[0]]
+            w = worlds.get(key(it["a"])[0])
             before = observe(ev, back)
             layers_logged = []
             for lay in it["layers"]:
@@ -95,7 +107,12 @@ def run_episode(spec, uid="E"):
                     arch = shared[dkey] = define(it["layers"], render)
                 def_before = str(arch)
                 try:
-                    rule = build_rule(arch, it["rule"], it.get("objs_as_list", True))
+                    if it.get("obj") is not None:          # a persistent LayerRule object, re-applied
+                        if it["obj"] not in lobjs:
+                            lobjs[it["obj"]] = build_rule(arch, it["rule"], it.get("objs_as_list", True))
+                        rule = lobjs[it["obj"]]
+                    else:
+                        rule = build_rule(arch, it["rule"], it.get("objs_as_list", True))
                     rule.assert_applies(ev)
                 finally:
                     def_after = str(arch)
@@ -118,8 +135,10 @@ def run_episode(spec, uid="E"):
             e = (tuple(it["e"][0]), tuple(it["e"][1]))
             n2, kind2 = key(it["a2"])
             worlds[n2] = worlds[key(it["a"])[0]].with_import(e)
-            reals[(n2, kind2)] = (build_real(worlds[n2], render), render, back)
+            if (n2, kind2) not in reals:
+                reals[(n2, kind2)] = (build_real(worlds[n2], render), render, back)
+            logged.add((n2, kind2))
             events.append({"k": "arch", "a": aid(it["a2"]), "first": False, **observe(reals[(n2, kind2)][0], back)})
         elif op == "law":
             events.append({"k": "law", "law": it["law"], "as": [aid(a) for a in it["as"]], "rids": it["rids"]})
-    return events
+        yield events
